@@ -20,6 +20,63 @@ type c07Replay struct {
 	// exp/nbf relative to now when Rel is set (replays stay meaningful later)
 	RelExp *int64 `json:"rel_exp,omitempty"`
 	RelNbf *int64 `json:"rel_nbf,omitempty"`
+	// Dirty > 0: the claim also carries the Dirty-th unrelated validation problem of its kind (early returns!)
+	Dirty int `json:"dirty,omitempty"`
+}
+
+// dirt: unrelated validation problems per kind; the time checks must not depend on them
+func dirt(kind string) []func(jwt.Claims) {
+	switch kind {
+	case "operator":
+		return []func(jwt.Claims){
+			func(c jwt.Claims) { c.(*jwt.OperatorClaims).SigningKeys.Add("not-a-key") },
+			func(c jwt.Claims) { c.(*jwt.OperatorClaims).AccountServerURL = "://bad url" },
+			func(c jwt.Claims) { c.(*jwt.OperatorClaims).SystemAccount = "nope" },
+			func(c jwt.Claims) { c.(*jwt.OperatorClaims).OperatorServiceURLs.Add("http://wrong.scheme") },
+		}
+	case "account":
+		return []func(jwt.Claims){
+			func(c jwt.Claims) { c.(*jwt.AccountClaims).Imports.Add(&jwt.Import{Type: jwt.Stream}) },
+			func(c jwt.Claims) { c.(*jwt.AccountClaims).Exports.Add(&jwt.Export{Subject: "a..b", Type: jwt.Service}) },
+			func(c jwt.Claims) { c.(*jwt.AccountClaims).SigningKeys.Add("not-a-key") },
+			func(c jwt.Claims) {
+				a := c.(*jwt.AccountClaims)
+				a.Limits.JetStreamTieredLimits["R1"] = jwt.JetStreamLimits{Streams: 1}
+				a.Limits.JetStreamLimits.DiskStorage = 5
+			},
+			func(c jwt.Claims) { c.(*jwt.AccountClaims).Subject = "not-an-account" },
+		}
+	case "user":
+		return []func(jwt.Claims){
+			func(c jwt.Claims) { c.(*jwt.UserClaims).Locale = "No/Such_Zone" },
+			func(c jwt.Claims) { c.(*jwt.UserClaims).Src.Add("not-a-cidr") },
+			func(c jwt.Claims) { c.(*jwt.UserClaims).Times = append(c.(*jwt.UserClaims).Times, jwt.TimeRange{Start: "25:00:00", End: "x"}) },
+			func(c jwt.Claims) { c.(*jwt.UserClaims).IssuerAccount = "not-an-account" },
+			func(c jwt.Claims) { c.(*jwt.UserClaims).Pub.Allow.Add("a b") },
+		}
+	case "activation":
+		return []func(jwt.Claims){
+			func(c jwt.Claims) { c.(*jwt.ActivationClaims).ImportSubject = "" },
+			func(c jwt.Claims) { c.(*jwt.ActivationClaims).ImportType = 0 },
+			func(c jwt.Claims) { c.(*jwt.ActivationClaims).IssuerAccount = "not-an-account" },
+			func(c jwt.Claims) { c.(*jwt.ActivationClaims).Subject = "not-an-account" },
+		}
+	case "authorization_request":
+		return []func(jwt.Claims){
+			func(c jwt.Claims) { c.(*jwt.AuthorizationRequestClaims).UserNkey = "derek" },
+			func(c jwt.Claims) { c.(*jwt.AuthorizationRequestClaims).UserNkey = pubOf(kpN('A', 0)) },
+			func(c jwt.Claims) { c.(*jwt.AuthorizationRequestClaims).UserNkey = "" },
+		}
+	case "authorization_response":
+		return []func(jwt.Claims){
+			func(c jwt.Claims) { c.(*jwt.AuthorizationResponseClaims).Audience = "" },
+			func(c jwt.Claims) { c.(*jwt.AuthorizationResponseClaims).Jwt = "" },
+			func(c jwt.Claims) { c.(*jwt.AuthorizationResponseClaims).Error = "both set" },
+			func(c jwt.Claims) { c.(*jwt.AuthorizationResponseClaims).Subject = "not-a-user" },
+			func(c jwt.Claims) { c.(*jwt.AuthorizationResponseClaims).IssuerAccount = "not-an-account" },
+		}
+	}
+	return nil
 }
 
 // cleanClaims builds a claim of the kind that carries no blocking issue.
@@ -73,6 +130,13 @@ func evalC07(c *Ctx, rp c07Replay) {
 		return
 	}
 	cl := cleanClaims(rp.Kind)
+	if rp.Dirty > 0 {
+		ds := dirt(rp.Kind)
+		if rp.Dirty > len(ds) {
+			return
+		}
+		ds[rp.Dirty-1](cl)
+	}
 	cl.Claims().Expires = exp
 	cl.Claims().NotBefore = nbf
 	r := validateOp(c, cl, true)
@@ -91,6 +155,13 @@ func evalC07(c *Ctx, rp c07Replay) {
 	if r.timeChecks != want {
 		c.Violate("time-issue-count", fmt.Sprintf("%s claim with exp=%d nbf=%d (now=%d): %d time-check issues, expected %d", rp.Kind, exp, nbf, now, r.timeChecks, want), rp)
 	}
+	if rp.Dirty > 0 {
+		// an unrelated problem may be blocking by itself; the time issues must still be raised and must block when asked
+		if want > 0 && !r.blockingT {
+			c.Violate("time-issue-blocking", fmt.Sprintf("%s claim with %d time issues (and an unrelated problem): IsBlocking(true)=false", rp.Kind, want), rp)
+		}
+		return
+	}
 	if r.blocking {
 		c.Violate("time-issue-blocking", fmt.Sprintf("%s claim: a time issue (or a clean claim) is blocking without time checks", rp.Kind), rp)
 	}
@@ -100,7 +171,7 @@ func evalC07(c *Ctx, rp c07Replay) {
 }
 
 func runC07(c *Ctx) {
-	c.Res.Rule = "all seven claim kinds x (expiry, not-before) pairs from {int64 min, -1, 0, 1, now-10^6, now-3, now+3, now+10^6, int64 max, ...} (13 x 13 grid) plus random int64 pairs, always outside a 2-second band around the clock; observable: number of time-check issues, IsBlocking(true), IsBlocking(false) on an otherwise clean claim; oracle = the property's sentence; every case also through the Lean model. non-trivial = distinct (kind, exp, nbf)."
+	c.Res.Rule = "all seven claim kinds x (expiry, not-before) pairs from {int64 min, -1, 0, 1, now-10^6, now-3, now+3, now+10^6, int64 max, ...} (13 x 13 grid) plus random int64 pairs, always outside a 2-second band around the clock; observable: number of time-check issues, IsBlocking(true), IsBlocking(false) on an otherwise clean claim, and on claims that also carry one unrelated validation problem of their kind (26 kinds of dirt: validators with early returns must still reach the time checks); oracle = the property's sentence; every case also through the Lean model. non-trivial = distinct (kind, exp, nbf)."
 	rel := func(d int64) *int64 { return &d }
 	type ev struct {
 		abs int64
@@ -115,6 +186,17 @@ func runC07(c *Ctx) {
 		}
 	}
 	c.Res.Extra["grid"] = len(edges) * len(edges) * len(allKinds)
+	// the same on claims that carry an unrelated validation problem (validators with early returns)
+	sub := []ev{edges[3], edges[4], edges[7], edges[10], edges[12]}
+	for _, k := range allKinds {
+		for d := 1; d <= len(dirt(k)); d++ {
+			for _, e := range sub {
+				for _, n := range sub {
+					evalC07(c, c07Replay{Kind: k, Exp: e.abs, Nbf: n.abs, RelExp: e.rel, RelNbf: n.rel, Dirty: d})
+				}
+			}
+		}
+	}
 	for i := 0; i < c.N(500, 50000); i++ {
 		k := allKinds[c.R.Intn(len(allKinds))]
 		var e, n int64
@@ -127,7 +209,7 @@ func runC07(c *Ctx) {
 		default:
 			e, n = int64(c.R.Intn(5))-2, int64(c.R.U64()>>uint(c.R.Intn(64)))
 		}
-		evalC07(c, c07Replay{Kind: k, Exp: e, Nbf: n})
+		evalC07(c, c07Replay{Kind: k, Exp: e, Nbf: n, Dirty: c.R.Intn(3) * c.R.Intn(6)})
 	}
 	c.Sample(c07Replay{Kind: "activation", Exp: 1, Nbf: math.MaxInt64})
 }
